@@ -213,6 +213,8 @@ def build(tier, ctx):
     defsA = pvcommon.scope_defs(ctx["repo"], nA)
     rep = [("FR", d) for d in fragment.repeated_event_family()]
     rep += fragment.corpus_multiple_same(ctx["repo"])
+    rep += [("FC", d) for d in
+            fragment.branch_count_family(full=(tier == "thorough"))]
     defsA += rep
     for i in range(0, len(defsA), 4):
         tasks.append({"kind": "A", "tier": tier,
@@ -229,6 +231,8 @@ def build(tier, ctx):
             small = "perm" if ne <= nsmall - 1 else True
         if nm == "FR":
             small = True
+        if nm == "FC":
+            small = False
         for s in seeds:
             tasks.append({"kind": "B", "name": nm, "defn": dsl.to_list(d),
                           "seed": s, "small": small})
